@@ -1,12 +1,16 @@
-"""C11 / finding 4: remote-state-preparation (type R) requests and responses cannot cross the
-qlink-interface 1.0 boundary, and the R-specific response of the built-in interface is refused too.
+"""C11 / finding 4: single-communication-qubit (NV) hardware configuration + a remote-state-preparation
+receive (or an EPR context) of more than one pair: pair 0's response can never be delivered.
 
-create_rsp(...) reaches the network stack as LinkLayerCreate(type=R, ...) with the right values,
-but `qlink_compat.request_to_qlink_1_0` - the conversion a qlink-interface-1.0 stack has to use -
-refuses it, although the interface has `ReqRemoteStatePrep` with exactly these fields.
-In the other direction neither `qlink_1_0.ResRemoteStatePrep` nor netqasm's own
-`LinkLayerOKTypeR` is accepted by `Executor._handle_epr_response`.
-K and M requests / responses (the controls below) pass.
+On NV every pair arrives in virtual qubit 0 and has to be moved to a memory qubit. Only
+`Builder.sdk_epr_keep` (create_keep / recv_keep) does that. `sdk_epr_rsp_recv` (recv_rsp) and
+`_pre_epr_context` (create_context / recv_context) call the same helper that reserves - and
+allocates - the memory qubits, but then hand those *already allocated* IDs to recv_epr / create_epr
+as the places where the pairs should arrive. The executor finds the target of pair 0 in use, defers
+the response ("virtual address is in use, will wait and try again") and the subroutine waits forever:
+no result handle ever reads its pair's response.
+
+Controls: recv_keep(number=2) on NV, and recv_rsp(number=2) on generic hardware, complete and their
+handles read pair i's fields.
 """
 # ---------------------------------------------------------------------------------------
 # Minimal in-process setup: SDK connection -> QNodeController -> Executor -> network stack.
@@ -146,79 +150,88 @@ def new_node(**conn_kwargs):
 
 
 # ---------------------------------------------------------------------------------------
-import qlink_interface as ql
-
-from netqasm.qlink_compat import LinkLayerOKTypeR, RandomBasis, request_to_qlink_1_0
-
-failures = []
+from netqasm.lang.instr.flavour import NVFlavour
+from netqasm.sdk.build_types import NVHardwareConfig
+from netqasm.sdk.transpile import NVSubroutineTranspiler
 
 
-def run(kind, make_response):
-    """Issue a 1-pair request of the given kind, convert what the stack got to qlink 1.0,
-    answer with make_response() and return (converted request, values read by the handle)."""
-    conn, sock, ex, stack = new_node()
-    script = []
+def new_nv_node():
+    SharedMemoryManager.reset_memories()
+    ctrl = Ctrl(name="alice", flavour=NVFlavour())
+    stack = Stack()
+    ctrl.network_stack = stack
+    sock = EPRSocket("bob")
+    conn = Conn("alice", ctrl=ctrl, epr_sockets=[sock], hardware_config=NVHardwareConfig(4),
+                compiler=NVSubroutineTranspiler)
+    return conn, sock, ctrl._executor, stack
+
+
+def ok_k(pair, directionality):
+    return LinkLayerOKTypeK(
+        type=ReturnType.OK_K, create_id=10 + pair, logical_qubit_id=20 + pair,
+        directionality_flag=directionality, sequence_number=30 + pair, purpose_id=0, remote_node_id=1,
+        goodness=40 + pair, goodness_time=50 + pair, bell_state=BellState.PHI_PLUS,
+    )
+
+
+NUMBER = 2
+
+
+def run(name, node, build, directionality):
+    """build(conn, sock) queues the request and returns the list of (duration) futures, or None."""
+    conn, sock, ex, stack = node()
+    script = [ok_k(i, directionality) for i in range(NUMBER)]
     ex.next_response = lambda executor: script.pop(0) if script else None
-    converted = values = None
+    ok = True
     with conn:
-        if kind == "R":
-            res = sock.create_rsp(number=1, time_unit=TimeUnit.MILLI_SECONDS, max_time=9,
-                                  rotations_local=(1, 2, 3), random_basis_local=RandomBasis.XZ)
-        elif kind == "M":
-            res = sock.create_measure(number=1, time_unit=TimeUnit.MILLI_SECONDS, max_time=9,
-                                      rotations_local=(1, 2, 3), random_basis_local=RandomBasis.XZ)
-        else:
-            res = sock.create_keep_with_info(number=1, time_unit=TimeUnit.MILLI_SECONDS, max_time=9)[1]
-        script[:] = [make_response()]
+        durations = build(conn, sock)
         try:
             conn.flush()
-        except Exception as exc:  # noqa
-            print(f"  [{kind}] response refused: {type(exc).__name__}: {str(exc).splitlines()[0][:120]}")
-            failures.append(f"{kind} response")
-        request = stack.requests[0]
-        print(f"  [{kind}] the stack received: type={request.type.name} number={request.number} "
-              f"time_unit={request.time_unit} max_time={request.max_time} "
-              f"rot_local=({request.rotation_X_local1},{request.rotation_Y_local},{request.rotation_X_local2}) "
-              f"random_basis_local={request.random_basis_local.name}")
-        try:
-            converted = request_to_qlink_1_0(request)
-            print(f"  [{kind}] as qlink 1.0 request: {converted}")
-        except Exception as exc:  # noqa
-            print(f"  [{kind}] request_to_qlink_1_0 refused it: {type(exc).__name__}: {exc}"[:200])
-            failures.append(f"{kind} request")
-        r = res[0]
-        values = (r.generation_duration.value, r.raw_bell_state.value, r.remote_node_id.value)
-    return converted, values
+        except TimeoutError as exc:
+            deferred = len(ex._pending_epr_responses)
+            print(f"  {name}: HANGS - {str(exc).splitlines()[0][:110]}")
+            print(f"      responses delivered by the link layer but never handled: {deferred} of {NUMBER}")
+            ok = False
+            conn._clear_app_on_exit = False  # (the application is stuck; do not try to clean up)
+        if ok and durations is not None:
+            got = [d.value for d in durations]
+            want = [40 + i for i in range(NUMBER)]
+            print(f"  {name}: completes, handles read durations {got} (expected {want})")
+            ok = got == want
+        elif ok:
+            print(f"  {name}: completes")
+    return ok
 
 
-common = dict(create_id=3, directionality_flag=0, sequence_number=4, purpose_id=0, remote_node_id=1,
-              goodness=77, bell_state=ql.BellState.PSI_PLUS)
-print("controls (K, M) through qlink-interface 1.0:")
-conv, vals = run("K", lambda: ql.ResCreateAndKeep(logical_qubit_id=0, time_of_goodness=5, **common))
-assert isinstance(conv, ql.ReqCreateAndKeep) and vals == (77, BellState.PSI_PLUS.value, 1), (conv, vals)
-conv, vals = run("M", lambda: ql.ResMeasureDirectly(measurement_outcome=1, measurement_basis=ql.MeasurementBasis.X, **common))
-assert isinstance(conv, ql.ReqMeasureDirectly) and vals == (77, BellState.PSI_PLUS.value, 1), (conv, vals)
-assert not failures, failures
+def recv_keep(conn, sock):
+    return [r.generation_duration for r in sock.recv_keep_with_info(number=NUMBER)[1]]
 
-print("type R, qlink-interface 1.0 response (ResRemoteStatePrep):")
-conv, vals = run("R", lambda: ql.ResRemoteStatePrep(measurement_outcome=1, measurement_basis=ql.MeasurementBasis.X, **common))
-expected_req = ql.ReqRemoteStatePrep(
-    remote_node_id=1, minimum_fidelity=0, time_unit=1, max_time=9, purpose_id=0, number=1, priority=0,
-    atomic=0, consecutive=0, random_basis_local=ql.RandomBasis.XZ, x_rotation_angle_local_1=1,
-    y_rotation_angle_local=2, x_rotation_angle_local_2=3)
-if conv != expected_req:
-    print("  expected qlink 1.0 request:", expected_req)
-if vals != (77, BellState.PSI_PLUS.value, 1):
-    print("  handle reads (duration, bell state, remote node) =", vals, "- expected (77, 1, 1)")
 
-print("type R, built-in response type LinkLayerOKTypeR:")
-failures_before = len(failures)
-run("R", lambda: LinkLayerOKTypeR(type=ReturnType.OK_R, create_id=3, measurement_outcome=1, directionality_flag=0,
-                                  sequence_number=4, purpose_id=0, remote_node_id=1, goodness=77,
-                                  bell_state=BellState.PSI_PLUS))
+def recv_rsp(conn, sock):
+    return [r.generation_duration for r in sock.recv_rsp_with_info(number=NUMBER)[1]]
 
-if failures:
-    print("VIOLATION:", sorted(set(failures)), "- type R is inside the domain (K/M/R), the link-layer interface has "
-          "ReqRemoteStatePrep / ResRemoteStatePrep / LinkLayerOKTypeR for it, but none of them gets across")
+
+def create_context(conn, sock):
+    with sock.create_context(number=NUMBER) as (q, pair):
+        q.measure()
+
+
+def recv_context(conn, sock):
+    with sock.recv_context(number=NUMBER) as (q, pair):
+        q.measure()
+
+
+print("controls:")
+assert run("recv_keep(2) on NV", new_nv_node, recv_keep, 1)
+assert run("recv_rsp(2) on generic hardware", new_node, recv_rsp, 1)
+assert run("create_context(2) on generic hardware", new_node, create_context, 0)
+print("NV hardware configuration (NVHardwareConfig(4), NV compiler, NV flavour):")
+bad = [name for name, build, d in (
+    ("recv_rsp(2)", recv_rsp, 1),
+    ("create_context(2)", create_context, 0),
+    ("recv_context(2)", recv_context, 1),
+) if not run(name + " on NV", new_nv_node, build, d)]
+if bad:
+    print("VIOLATION:", bad, "- the link layer's responses cannot be delivered, the result handles never get pair i's fields")
     sys.exit(1)
 print("OK")
